@@ -7,8 +7,11 @@ if ! git diff --quiet; then echo "repo dirty"; exit 2; fi
 if ! git apply "$P"; then echo "patch does not apply: $P"; exit 2; fi
 trap 'git -C /repo checkout -- . ' EXIT
 for ID in "$@"; do
+  # the evidence file must keep describing the unchanged tree: save and restore it around the mutated run
+  cp /verif/evidence/$ID.json /verif/evidence/$ID.json.tmp 2>/dev/null
   OUT=$(cd /verif && ./check $ID --tier quick 2>&1)
   RC=$?
+  mv /verif/evidence/$ID.json.tmp /verif/evidence/$ID.json 2>/dev/null
   if [ $RC -eq 1 ] && echo "$OUT" | grep -q "^VIOLATION property=$ID"; then
      echo "CAUGHT $ID $(basename $P): $(echo "$OUT" | grep '^# clause' | head -1 | cut -c1-220)"
   elif [ $RC -eq 0 ]; then
